@@ -11,3 +11,5 @@ INVARIANT C18_InverseYInvariantBus
 INVARIANT C18_InverseYInvariantBranch
 INVARIANT C18_BusSubsetInvariant
 INVARIANT C18_TwoPhaseRatio
+INVARIANT C18_LabelInvariantBus
+INVARIANT C18_LabelInvariantBranch
